@@ -169,12 +169,14 @@ class FilesystemRegistry(AbstractRegistry):
         # keys are the stems of the files in the root directory, never paths
         if not isinstance(item, six.string_types) or basename(item) != item:
             raise KeyError(item)
-        files = ("{}.{}".format(item, extension) for extension in self._extensions)
-        for name in files:
-            if self.fs.isfile(name):
-                with self.fs.open(name) as handle:
+        # find the file through the same listing as `__iter__`, so that every
+        # yielded key can be looked up whatever the case rules of the filesystem
+        for f in self.fs.filterdir("/", files=self._files, exclude_dirs=["*"]):
+            name, _ = splitext(f.name)
+            if name == item:
+                with self.fs.open(f.name) as handle:
                     record = CircularRecord(Bio.SeqIO.read(handle, "genbank"))
-                    record.id, _ = splitext(name)
+                    record.id = name
                 return Item(
                     id=record.id,
                     name=record.description,
